@@ -43,10 +43,11 @@ class Chooser:
 
 
 class T:
-    __slots__ = ('t', 'k', 'pre', 'glue')
+    __slots__ = ('t', 'k', 'pre', 'glue', 'fixed')
 
     def __init__(self, t, k, pre='', glue=False):
         self.t, self.k, self.pre, self.glue = t, k, pre, glue   # glue: never break the line before this token
+        self.fixed = False                                       # fixed: 'pre' is emitted exactly as given
 
 
 def kw(t, pre=' '):
@@ -81,6 +82,7 @@ class Renderer:
         self.lines = []
         self.out = Rendered()
         self.pending = []      # logical statements waiting to be flushed (for ';' joins)
+        self.in_module = False
 
     # ------------------------------------------------------------------ text of tokens
     def _case(self, text, mode):
@@ -173,9 +175,9 @@ class Renderer:
         return toks
 
     # ------------------------------------------------------------------ statement queue
-    def stmt(self, toks, tag, level, unit, fact=None, label=None, join=False):
+    def stmt(self, toks, tag, level, unit, fact=None, label=None, join=False, key=None):
         self.pending.append({'toks': toks, 'tag': tag, 'level': level, 'unit': unit, 'fact': fact, 'label': label,
-                             'join': join})
+                             'join': join, 'key': key})
 
     def flush(self):
         pend, self.pending = self.pending, []
@@ -201,11 +203,11 @@ class Renderer:
         self.lines.append(text)
         n = len(self.lines)
         self.out.stmts.append({'tag': tag, 'span': [n, n], 'unit': unit, 'shared': False, 'pos': 0, 'cont': False,
-                               'label': None, 'fact': None, 'lead': ''})
+                               'label': None, 'fact': None, 'lead': '', 'key': None})
 
     def emit_group(self, group):
         level = group[0]['level']
-        if group[0]['tag'] not in ('end-module', 'end-sub', 'end-fun'):
+        if not group[0]['tag'].startswith(('end-module', 'end-sub', 'end-fun')):
             self.decor(level)
         toks = []
         for gi, g in enumerate(group):
@@ -222,10 +224,10 @@ class Renderer:
             trailing = COMMENTS[self.ch.pick(len(COMMENTS))]
         first, last, how = self.emit(toks, level, group[0]['label'], trailing)
         for gi, g in enumerate(group):
-            lead = next((tk.t for tk in g['toks'] if tk.k in (ID, KW)), '')
+            lead = g.get('lead') or next((tk.t for tk in g['toks'] if tk.k in (ID, KW)), '')
             self.out.stmts.append({'tag': g['tag'], 'span': [first, last], 'unit': g['unit'], 'shared': len(group) > 1,
                                    'pos': gi, 'cont': last > first, 'label': g['label'], 'fact': g['fact'],
-                                   'lead': lead})
+                                   'lead': lead, 'key': g['key']})
             if g['fact']:
                 if len(group) > 1:
                     how.add('semicolon')
@@ -255,7 +257,7 @@ class Renderer:
             if tk.k in (KW, ID) and text != tk.t:
                 how.add('case')
             pre = tk.pre
-            if pre == ' ' and i:
+            if pre == ' ' and i and not tk.fixed:
                 pre = self.sp()
             piece = ('' if i == 0 else pre) + text
             brk = False
@@ -376,7 +378,8 @@ class Renderer:
                 ind = ' ' * (self.L.get('indent', 2) * level)
                 self.rawline(ind + '!$' + s[1], 'pragma', unit)
             elif k == 'call':
-                self.stmt(self.call_toks(s), 'call', level, unit, fact='calls', label=s[3].get('label'), join=True)
+                self.stmt(self.call_toks(s), 'call', level, unit, fact='calls', label=s[3].get('label'), join=True,
+                          key=_callkey(s))
             elif k == 'assign':
                 self.stmt(self.assign_toks(s), 'assign', level, unit, label=s[3].get('label'), join=True)
             elif k == 'print':
@@ -395,7 +398,9 @@ class Renderer:
                 inner[0].pre = ' '
                 sp = ' ' if self.L.get('spaces', 1) else ''
                 self.stmt([kw('if', ''), pu('(', sp)] + ct + [pu(')')] + inner, 'if1-' + s[2][0], level, unit,
-                          fact='calls' if s[2][0] == 'call' else None, label=s[2][3].get('label'), join=True)
+                          fact='calls' if s[2][0] == 'call' else None, label=s[2][3].get('label'), join=True,
+                          key=_callkey(s[2]) if s[2][0] == 'call' else None)
+                self.pending[-1]['lead'] = next((tk.t for tk in inner if tk.k in (ID, KW)), '')
             elif k == 'if':
                 for j, (cond, bd) in enumerate(s[1]):
                     ct = self.expr(cond)[0]
@@ -419,7 +424,7 @@ class Renderer:
                 name = None
                 if form == 'named':
                     name = f'loop_{n}'
-                    hdr += [idt(name, ''), pu(':'), kw('do')]
+                    hdr += [idt(name, ''), pu(':', glue=True), T('do', KW, ' ', glue=True)]
                 else:
                     hdr += [kw('do', '')]
                 if form == 'label':
@@ -495,7 +500,7 @@ class Renderer:
     def iface(self, it, level, unit):
         kind = it[0]
         if kind == 'generic':
-            self.stmt([kw('interface', ''), idt(it[1])], 'iface-stmt', level, unit, fact='ifaces')
+            self.stmt([kw('interface', ''), idt(it[1])], 'iface-stmt', level, unit, fact='ifaces', key=it[1])
             form = it[3] if len(it) > 3 else 'module procedure'
             per_line = self.ch.pick(2) == 0
             groups = [[n] for n in it[2]] if per_line else [list(it[2])]
@@ -507,11 +512,12 @@ class Renderer:
                     if i:
                         toks.append(pu(','))
                     toks.append(idt(n))
-                self.stmt(toks, 'modproc', level + 1, unit, fact='ifaces')
+                self.stmt(toks, 'modproc', level + 1, unit, fact='ifaces', key=it[1])
             self.stmt(self.end_toks('interface', it[1] if self.ch.pick(2) == 0 else None, 'endjoin_iface'),
-                      'end-iface', level, unit, fact='ifaces')
+                      'end-iface', level, unit, fact='ifaces', key=it[1])
         elif kind == 'operator':
-            self.stmt([kw('interface', ''), T(it[1], PUNCT, ' ')], 'iface-stmt', level, unit, fact='ifaces')
+            self.stmt([kw('interface', ''), T(it[1], PUNCT, ' ')], 'iface-stmt', level, unit, fact='ifaces',
+                      key=it[1].replace(' ', ''))
             self.stmt([kw('module', ''), kw('procedure')] + [idt(n) for n in it[2]], 'modproc', level + 1, unit,
                       fact='ifaces')
             self.stmt(self.end_toks('interface', None, 'endjoin_iface'), 'end-iface', level, unit, fact='ifaces')
@@ -532,7 +538,7 @@ class Renderer:
                 toks.append(pu(','))
             toks.append(idt(a, ' ' if i else ''))
         toks.append(pu(')'))
-        self.stmt(toks, 'iface-body-stmt', level, unit, fact='ifaces')
+        self.stmt(toks, 'iface-body-stmt', level, unit, fact='ifaces', key=name)
         if sig == 'this':
             self.stmt([kw('import', '')] + self.dc() + [idt(bd[3])], 'iface-body-decl', level + 1, unit)
             self.stmt(self.decl(self.typ('class', bd[3]), ['this'], [self.intent('inout')]), 'iface-body-decl',
@@ -552,13 +558,14 @@ class Renderer:
         hdr = [kw('type', '')]
         for a in t['attrs']:
             if a.startswith('extends('):
-                hdr += [pu(','), kw('extends'), pu('('), idt(a[8:-1], ''), pu(')')]
+                gap = ' ' if t.get('extends_spaced') else ''
+                hdr += [pu(','), kw('extends'), pu('(', glue=True), T(a[8:-1], ID, gap, glue=True), pu(')', gap, glue=True)]
             else:
                 hdr += [pu(','), kw(a)]
         if t['attrs'] or self.L.get('dcolon', True):
             hdr.append(pu('::', ' '))
         hdr.append(idt(t['name']))
-        self.stmt(hdr, 'type-stmt', level, unit, fact='typedefs')
+        self.stmt(hdr, 'type-stmt', level, unit, fact='typedefs', key=t['name'])
         for c in t['comps']:
             if c[1] is None:
                 self.stmt(self.decl([kw('integer', '')], [c[0]], init=['i', 1]), 'comp-decl', level + 1, unit, join=True)
@@ -573,10 +580,10 @@ class Renderer:
                         if i:
                             toks.append(pu(','))
                         toks.append(idt(tg))
-                    self.stmt(toks, 'generic-binding', level + 1, unit, fact='typedefs')
+                    self.stmt(toks, 'generic-binding', level + 1, unit, fact='typedefs', key=pr[1])
                 elif pr[0] == 'final':
                     self.stmt([kw('final', '')] + self.dc() + [idt(pr[1])], 'final-binding', level + 1, unit,
-                              fact='typedefs')
+                              fact='typedefs', key=pr[1])
                 else:
                     _, bname, tgt, attrs, ifc = pr
                     toks = [kw('procedure', '')]
@@ -592,7 +599,7 @@ class Renderer:
                     if tgt:
                         s = ' ' if self.L.get('spaces', 1) else ''
                         toks += [T('=>', OP, s), idt(tgt, s)]
-                    self.stmt(toks, 'binding', level + 1, unit, fact='typedefs')
+                    self.stmt(toks, 'deferred-binding' if ifc else 'binding', level + 1, unit, fact='typedefs', key=bname)
         self.stmt(self.end_toks('type', t['name'] if self.ch.pick(3) else None, 'endjoin_type'), 'end-type', level,
                   unit, fact='typedefs')
 
@@ -626,11 +633,11 @@ class Renderer:
         res = r.get('result') or ('opres' if sig == 'op' else None)
         if res:
             hdr += [kw('result'), pu('('), idt(res, ''), pu(')')]
-        self.stmt(hdr, 'fun-stmt' if r['k'] == 'fun' else 'sub-stmt', level, unit, fact='units')
+        self.stmt(hdr, 'fun-stmt' if r['k'] == 'fun' else 'sub-stmt', level, unit, fact='units', key=r['name'])
         self.flush()
         first = self.out.stmts[-1]['span'][0]
         for u in r['uses']:
-            self.stmt(self.use_toks(u), 'use', level + 1, unit, fact='imports', join=True)
+            self.stmt(self.use_toks(u), 'use', level + 1, unit, fact='imports', join=True, key=u['module'])
         self.stmt([kw('implicit', ''), kw('none')], 'implicit', level + 1, unit, join=True)
         integer = [kw('integer', '')]
         if sig in ('this', 'thisr'):
@@ -693,7 +700,11 @@ class Renderer:
             toks = [kw('end', '')]
         else:
             toks = self.end_toks(word, r['name'] if r['end'] == 'full' else None, 'endjoin_unit')
-        self.stmt(toks, 'end-fun' if r['k'] == 'fun' else 'end-sub', level, unit, fact='units')
+            if r['end'] == 'full' and len(path) > (1 if self.in_module else 0) and not self.L.get('end_gap'):
+                toks[-1].glue = True
+                toks[-1].fixed = True
+        self.stmt(toks, ('end-fun' if r['k'] == 'fun' else 'end-sub') + ('-bare' if r['end'] == 'bare' else ''), level,
+                  unit, fact='units', key=r['name'])
         self.flush()
         self.out.units[unit] = [first, self.out.stmts[-1]['span'][1]]
         _ = start_idx
@@ -701,11 +712,11 @@ class Renderer:
     def module(self, m):
         self.flush()
         unit = m['name']
-        self.stmt([kw('module', ''), idt(m['name'])], 'module-stmt', 0, unit, fact='units')
+        self.stmt([kw('module', ''), idt(m['name'])], 'module-stmt', 0, unit, fact='units', key=m['name'])
         self.flush()
         first = self.out.stmts[-1]['span'][0]
         for u in m['uses']:
-            self.stmt(self.use_toks(u), 'use', 1, unit, fact='imports', join=True)
+            self.stmt(self.use_toks(u), 'use', 1, unit, fact='imports', join=True, key=u['module'])
         self.stmt([kw('implicit', ''), kw('none')], 'implicit', 1, unit, join=True)
         if m['access']:
             self.stmt([kw(m['access'], '')], 'access', 1, unit, join=True)
@@ -753,6 +764,7 @@ class Renderer:
                 self.rawline('! ' + COMMENTS[self.ch.pick(len(COMMENTS))], 'comment')
             elif i and L.get('blank'):
                 self.rawline('', 'blank')
+            self.in_module = u['k'] == 'module'
             if u['k'] == 'module':
                 self.module(u)
             else:
@@ -762,6 +774,10 @@ class Renderer:
         self.out.text = '\n'.join(self.lines) + '\n'
         self.out.nlines = len(self.lines)
         return self.out
+
+
+def _callkey(s):
+    return '%'.join(part.split('(')[0] for part in s[1])
 
 
 def _is_pure(r):
